@@ -40,6 +40,7 @@ type e1Step struct {
 type e1Scenario struct {
 	Engine   string   `json:"engine"`
 	Prop     string   `json:"prop"`
+	Seed     uint64   `json:"seed"`
 	Nodes    int      `json:"nodes"`
 	Offset   bool     `json:"offset"`   // production message-id offset instead of 0
 	Trailing int      `json:"trailing"` // raft TrailingLogs stand-in
@@ -339,7 +340,7 @@ type e1Engine struct{}
 func (e1Engine) Generate(seed uint64, prop, tier string) (json.RawMessage, error) {
 	src := core.NewSource(seed)
 	g := src.Stream("gen")
-	sc := e1Scenario{Engine: "e1", Prop: prop, Nodes: g.Range(2, 4), Offset: g.Chance(2, 3), Trailing: []int{0, 0, 2, 10, 10000}[g.Intn(5)]}
+	sc := e1Scenario{Engine: "e1", Prop: prop, Seed: seed, Nodes: g.Range(2, 4), Offset: g.Chance(2, 3), Trailing: []int{0, 0, 2, 10, 10000}[g.Intn(5)]}
 	if g.Chance(1, 10) {
 		sc.JSONEnc = true
 	}
